@@ -1890,6 +1890,9 @@ func (p *Parser) parseExpression(prec OpPrec) IExpr {
 		p.in = true
 		left = p.parseAsyncExpression(prec, async)
 		p.in = prevIn
+		if _, ok := left.(*ArrowFunc); ok {
+			precLeft = OpAssign
+		}
 	case ClassToken:
 		prevIn := p.in
 		p.in = true
@@ -2024,6 +2027,9 @@ func (p *Parser) parseExpressionSuffix(left IExpr, prec, precLeft OpPrec) IExpr 
 		case OpenBracketToken:
 			// OpMember < prec does never happen
 			if precLeft < OpLHS {
+				if p.prevLT {
+					return left // automatic semicolon insertion
+				}
 				p.fail("expression")
 				return nil
 			} else if OpMember < precLeft {
@@ -2041,6 +2047,9 @@ func (p *Parser) parseExpressionSuffix(left IExpr, prec, precLeft OpPrec) IExpr 
 			if OpCall < prec {
 				return left
 			} else if precLeft < OpLHS {
+				if p.prevLT {
+					return left // automatic semicolon insertion
+				}
 				p.fail("expression")
 				return nil
 			} else if OpCall < precLeft {
@@ -2053,6 +2062,9 @@ func (p *Parser) parseExpressionSuffix(left IExpr, prec, precLeft OpPrec) IExpr 
 		case TemplateToken, TemplateStartToken:
 			// OpMember < prec does never happen
 			if precLeft < OpLHS {
+				if p.prevLT {
+					return left // automatic semicolon insertion
+				}
 				p.fail("expression")
 				return nil
 			} else if OpMember < precLeft {
